@@ -1,6 +1,7 @@
 import KoordVerif.Proofs.C17Flow
 import KoordVerif.Proofs.C17ExtNode
 import KoordVerif.Proofs.C17ExtRead
+import KoordVerif.Proofs.C17Ext3
 /-
 C17 — migration jobs evict only after capacity is secured; finished jobs stay finished.
 
@@ -426,5 +427,151 @@ example : (reconcile { exWorld with env := { exWorld.env with now := 300 } } 0).
 example : (run exWorld [.recon 0, .recon 0, .pod none, .recon 0]).2.length = 1 := by decide
 /-- with the Evict call failing (bit 1: after the ReservationScheduled status write) the retry evicts again -/
 example : (run exWorld [.recon 2, .recon 0]).2.length = 2 := by decide
+
+/-! ### ext3 — what the controller WRITES when it creates the reservation; consumption by a sibling pod
+(Model/C17Opts.lean: `writtenResv` = CreateOrUpdateReservationOptions + CreateReservation, `consume` = the scheduler's
+syncStatus, `effAO` = IsReservationAllocateOnce) -/
+
+/-- **migration_reservation_is_allocate_once.**  Whatever reservation template the job carries (none, or one with
+    allocateOnce nil / true / false and any other field), whatever the job's TTL and the pod: the Reservation handed to
+    the API server has `spec.allocateOnce = true`, explicitly. -/
+theorem migration_reservation_is_allocate_once (t : Option Tmpl) (jobTTL : Nat) (p : Pod) :
+    (writtenResv t jobTTL p).ao = some true := by
+  cases t <;> rfl
+
+/-- the other forced fields: created-by label, order label, the pod template's node name cleared; the user's own label
+    survives; the TTL is the template's, else (no Expires either) the job's -/
+theorem migration_reservation_forced_fields (t : Option Tmpl) (jobTTL : Nat) (p : Pod) :
+    (writtenResv t jobTTL p).createdByDefault = true ∧ (writtenResv t jobTTL p).orderLabel = true ∧
+    (writtenResv t jobTTL p).nodeCleared = true ∧ (writtenResv t jobTTL p).skipAffinity = (p.node != 0) ∧
+    (writtenResv t jobTTL p).owners = genOwners p := by
+  cases t <;> exact ⟨rfl, rfl, rfl, rfl, rfl⟩
+
+/-- syncStatus on an allocate-once reservation that has a node: consumed = phase Succeeded, in one step with the owner -/
+theorem consume_allocate_once_succeeded (r : Resv) (uid : Nat) (h : r.node ≠ 0) :
+    resvSucceeded (consume r uid true) = true ∧ (consume r uid true).owner = uid := by
+  simp [consume, h, resvSucceeded]
+
+/-- a reservation the migration controller wrote and a sibling pod `uid` then consumed (the scheduler played by
+    `consume` with the WRITTEN allocate-once) -/
+def HeldBySibling (t : Option Tmpl) (jobTTL : Nat) (p : Pod) (r : Resv) : Prop :=
+  ∃ r0 uid, r0.node ≠ 0 ∧ r = consume r0 uid (effAO (writtenResv t jobTTL p).ao)
+
+/-- **evict_never_while_held_by_sibling** ("never while the reservation is bound to some other pod", for the reservation
+    the job itself created): in reservation-first mode, under every write-fault mask, at the instant of an `Evict` call
+    the reservation is not one that a sibling pod consumed — because what was written is allocate-once, consumption
+    makes it Succeeded, and `evict_only_when_secured` excludes Succeeded. -/
+theorem evict_never_while_held_by_sibling (w : World) (f : Nat) (hmode : w.job.spec.direct = false)
+    (t : Option Tmpl) (jobTTL : Nat) (p : Pod) :
+    ∀ s ∈ (reconcile w f).2.evicts, ∀ r, s.env.resv = some r → ¬ HeldBySibling t jobTTL p r := by
+  intro s hs r hr ⟨r0, uid, hn, he⟩
+  obtain ⟨_, r', p', hr', _, _, _, _, hsucc⟩ := evict_only_when_secured w f hmode s hs
+  rw [hr] at hr'
+  cases hr'
+  rw [migration_reservation_is_allocate_once] at he
+  have := (consume_allocate_once_succeeded r0 uid hn).1
+  simp only [effAO, Option.getD_some] at he
+  rw [← he] at this
+  rw [this] at hsucc
+  cases hsucc
+
+/-- why `allocateOnce` must be FORCED: with a reusable reservation (allocateOnce=false honoured from the template) the
+    scheduler leaves it Available while a sibling pod (uid 7) holds it, and this reconcile evicts the target pod -/
+theorem reusable_reservation_evicts_while_held_counterexample :
+    ¬ (∀ (w : World) (r0 : Resv), w.job.spec.direct = false → r0.node ≠ 0 → w.env.resv = some (consume r0 7 false) →
+        ∀ p, w.env.pod = some p → heldByOther (consume r0 7 false) p.uid = true → (reconcile w 0).2.evicts = []) := by
+  intro h
+  have := h { exWorld with env := { exWorld.env with resv := some (consume exResv 7 false) } } exResv rfl (by decide) rfl
+    exPod rfl (by decide)
+  revert this
+  decide
+
+/-! ### ext3 — the assumed-cache under a LAGGING informer (Model/C17Cache.lean) -/
+
+/-- **lagging_read_never_re_evicts.**  Shipped policy (`assume` after doMigrate, with the object as written).  In every
+    state the policy can reach (`LagInv`: the cache holds the newest version), a reconcile that is served ANY older
+    version of the job — k versions back, whatever the fault mask — is declined by the guard: no API call, no eviction,
+    state unchanged. -/
+theorem lagging_read_never_re_evicts (cs : CS) (k f : Nat) (h : LagInv cs) (hb : (served cs k).1 ≠ 0) :
+    recLag .afterWrite cs k f = (cs, ⟨[], []⟩) :=
+  recLag_stale_declined cs k f h hb
+
+/-- `LagInv` holds initially (empty cache, nothing older to serve) and after every step of every history -/
+theorem lag_invariant (ops : List OpC) (w : World) (ver : Nat) :
+    LagInv (runC .afterWrite { w := w, ver := ver, olds := [], assumed := none } ops).1 := by
+  suffices h : ∀ cs, LagInv cs → LagInv (runC .afterWrite cs ops).1 from
+    h _ ⟨Nat.zero_le _, Or.inr ⟨rfl, rfl⟩⟩
+  induction ops with
+  | nil => intro cs h; exact h
+  | cons op rest ih => intro cs h; exact ih _ (stepC_sim cs op h).1
+
+def faultFreeC (ops : List OpC) : Prop := ∀ k f, OpC.lagrec k f ∈ ops → f = 0
+
+/-- **lagging_history_evicts_at_most_once** ("with no API errors a job evicts its pod at most once", informer lag
+    included): from ANY world, along any history of environment events, controller restarts and fault-free reconciles
+    each served an arbitrarily lagging version of the job, the evictor is called at most once. -/
+theorem lagging_history_evicts_at_most_once (ops : List OpC) (w : World) (ver : Nat) (hff : faultFreeC ops) :
+    (runC .afterWrite { w := w, ver := ver, olds := [], assumed := none } ops).2.length ≤ 1 := by
+  obtain ⟨pre, hpre, he⟩ := runC_sim ops { w := w, ver := ver, olds := [], assumed := none }
+    ⟨Nat.zero_le _, Or.inr ⟨rfl, rfl⟩⟩
+  rw [← he]
+  refine (evict_at_most_once pre w ?_).1
+  intro g hg
+  obtain ⟨k, hk⟩ := hpre g hg
+  exact hff k g hk
+
+/-- the job of the witness: Running, reservation scheduled on another node, nothing recorded yet -/
+def lagWorld : World := exWorld
+
+/-- **assume-as-read re-evicts**: with `defer assume(job.DeepCopy())` placed before doMigrate the cache remembers the
+    version AS READ; the evicting pass writes ReservationCreated, ReservationScheduled and Evicting; the next reconcile is
+    served the version one write back (everything but Evicting), passes the guard and calls the evictor again — in a
+    history without any failed API call. -/
+theorem assume_as_read_re_evicts_counterexample :
+    ¬ (∀ (ops : List OpC) (w : World) (ver : Nat), faultFreeC ops →
+        (runC .asRead { w := w, ver := ver, olds := [], assumed := none } ops).2.length ≤ 1) := by
+  intro h
+  have := h [.lagrec 0 0, .lagrec 1 0] lagWorld 5 (by intro k f hm; simp at hm; rcases hm with ⟨_, rfl⟩ | ⟨_, rfl⟩ <;> rfl)
+  revert this
+  decide
+
+/-- the same history under the shipped policy: one eviction -/
+example : (runC .afterWrite { w := lagWorld, ver := 5, olds := [], assumed := none } [.lagrec 0 0, .lagrec 1 0, .lagrec 3 0, .lagrec 0 0]).2.length = 1 := by
+  decide
+
+/-! ### ext3 — the arbitrator and finished jobs (Model/C17Arb.lean) -/
+
+/-- **OPEN (gated stream, fingerprint C17:terminal-phase-changed:arbitrator-after-restart).**  The full statement
+      ∀ history, once the persisted phase is Succeeded / Failed no arbitration round changes it
+    is FALSE for the shipped handler: after a controller restart the Create handler adds every existing job, and
+    `updateFailedJob` writes Phase=Failed with a copy that is current.  Witness: a Succeeded job, a pod of the target's
+    name exists, the non-retryable filter rejects it. -/
+theorem arbitrator_terminal_forever_counterexample :
+    ¬ (∀ (s : ArbS) (ops : List AOp), termPh s.phase = true → (arbRun false s ops).phase = s.phase) := by
+  intro h
+  have := h ⟨Ph.succeeded, 3, true, true, false, none, false⟩ [.add, .round] rfl
+  revert this
+  decide
+
+/-- what does hold for the shipped arbitrator: a copy that predates the job's last write never changes the phase (the
+    API server refuses the stale write) — a job added while live and finished by the controller afterwards is safe -/
+theorem arbitrator_stale_copy_never_flips_partial (s : ArbS) (h : ∀ v, s.waiting = some v → v < s.ver) :
+    (arbRound s).phase = s.phase :=
+  arbRound_phase_of_stale s h
+
+/-- the candidate repair (Create handler skips Succeeded / Failed jobs) restores the clause over ALL histories -/
+theorem arbitrator_guarded_add_terminal_forever (ops : List AOp) :
+    ∀ s : ArbS, ArbInv s → termPh s.phase = true → (arbRun true s ops).phase = s.phase := by
+  induction ops with
+  | nil => intro s _ _; rfl
+  | cons op rest ih =>
+    intro s hi ht
+    obtain ⟨hi', hp⟩ := arbStep_inv s op hi
+    simp only [arbRun]
+    rw [ih _ hi' (by rw [hp ht]; exact ht), hp ht]
+
+/-- `ArbInv` is not vacuous: a fresh arbitrator (nothing waiting) satisfies it for any job -/
+example (ph ver : Nat) (pod nr rt : Bool) : ArbInv ⟨ph, ver, pod, nr, rt, none, false⟩ :=
+  ⟨fun _ h => (by cases h), fun _ _ h => (by cases h)⟩
 
 end KoordVerif.C17
